@@ -42,7 +42,26 @@ EXPLANATION = (
     "middle, last) - the D17 condition.  R16.6: every block-setup instruction "
     "is recognised as pushing a block and POP_BLOCK closes its basic block.  "
     "R16.7: every class with a known-jump flag has the operand slots "
-    "_add_jump_targets writes.  Not decided: that the resulting partition is "
+    "_add_jump_targets writes.  R16.20 (rules/c16_pairing.py): a pass that "
+    "appends a *whole* block to another one and adds the result to "
+    "processed_blocks (compute_order then builds no edges for it) is only "
+    "right when the appended block is a single instruction; the instruction "
+    "is identified from the consumer (_remove_jmp_to_get_anext_and_merge looks "
+    "the block up through <op>.end_async_for_target), its producer "
+    "(_add_async_for_jump_back_targets: handler target of the exception-table "
+    "range that starts at GET_ANEXT) and the host CPython 3.12 compiler as "
+    "reference (-> END_ASYNC_FOR), and must satisfy one of the flag-helper "
+    "disjuncts of _split_bytecode's block-closing test.  R16.21: _process "
+    "pairs the code objects of co_consts with DisassembledCode.children by "
+    "position (one iterator over dis_code.children advanced exactly once per "
+    "code constant, constants walked in co_consts order); a lookup keyed by "
+    "attributes of the code object (name, first line) or get_child(name) is a "
+    "violation because such keys collide for sibling lambdas/genexprs.  "
+    "Blind spots of R16.20/21: other assumptions of the async-for surgery "
+    "(that the merged block *starts* at the handler, that the positionally "
+    "next block is the right successor) are not checked; identity- or "
+    "index-keyed pairings and zip-based pairings are reported as analysis "
+    "errors, not decided.  Not decided: that the resulting partition is "
     "correct for every code object (that needs the bytecode).")
 ASSUMPTIONS = [
     "pycnite.mapping (get_mapping, arg_type) describes what pycnite.bytecode "
@@ -53,6 +72,10 @@ ASSUMPTIONS = [
     "HAS_CONST/HAS_NAME/HAS_LOCAL/HAS_FREE/HAS_NARGS/HAS_JUNKNOWN have no "
     "consumer that affects the block graph other than does_jump() "
     "(HAS_JUNKNOWN) and are not compared with a reference",
+    "R16.20: the host interpreter is CPython 3.12 and its compiler puts "
+    "END_ASYNC_FOR at the handler of every GET_ANEXT range (checked on five "
+    "async-for shapes each run); R16.21: pycnite.bytecode.dis_all appends one "
+    "child per code object of co_consts in co_consts order",
 ]
 
 OPC = O.OPCODES
